@@ -20,6 +20,10 @@ pub static mut OUT: [u8; OUT_CAP] = [0; OUT_CAP];
 pub static mut OUT_LEN: usize = 0;
 pub static mut READ_CALLS: usize = 0;
 pub static mut FD_DROPS: usize = 0;
+pub static mut NONBLOCK: bool = false;
+/// one WouldBlock is injected when a NON-BLOCKING read happens at this input position (data "not there yet")
+pub static mut GAP_AT: usize = usize::MAX;
+pub static mut GAP_USED: bool = false;
 
 pub fn plan_kind(p: Plan) -> (usize, usize) {
     match p {
@@ -33,6 +37,10 @@ pub fn plan_kind(p: Plan) -> (usize, usize) {
 pub fn stub_read(_s: &mut std::net::TcpStream, buf: &mut [u8]) -> std::io::Result<usize> {
     unsafe {
         READ_CALLS += 1;
+        if NONBLOCK && IN_POS == GAP_AT && !GAP_USED {
+            GAP_USED = true;
+            return Err(std::io::Error::from(std::io::ErrorKind::WouldBlock));
+        }
         let avail = IN_LEN - IN_POS;
         if avail == 0 {
             if EOF_WOULD_BLOCK {
@@ -66,7 +74,8 @@ pub fn stub_write(_s: &mut std::net::TcpStream, buf: &[u8]) -> std::io::Result<u
 }
 
 #[cfg(kani)]
-pub fn stub_set_nonblocking(_s: &std::net::TcpStream, _nb: bool) -> std::io::Result<()> {
+pub fn stub_set_nonblocking(_s: &std::net::TcpStream, nb: bool) -> std::io::Result<()> {
+    unsafe { NONBLOCK = nb };
     Ok(())
 }
 
@@ -89,6 +98,12 @@ pub struct Captured {
 /// Runs `f` with a connection whose peer sends `input` under `plan` (and then either closes or stays silent),
 /// returns f's result and everything written to the connection (including what Drop impls write).
 pub fn with_conn<R>(buf: &[u8; IN_CAP], len: usize, plan: Plan, silent_at_end: bool, f: impl FnOnce(Stream) -> R) -> (R, Captured) {
+    with_conn_gap(buf, len, plan, silent_at_end, false, f)
+}
+
+/// `gap`: with Plan::Split(k), the bytes after offset k arrive LATER: a non-blocking read at k sees WouldBlock once
+/// (natively: the client pauses 300 ms at the split).
+pub fn with_conn_gap<R>(buf: &[u8; IN_CAP], len: usize, plan: Plan, silent_at_end: bool, gap: bool, f: impl FnOnce(Stream) -> R) -> (R, Captured) {
     let input: &[u8] = &buf[..len];
     #[cfg(kani)]
     {
@@ -104,6 +119,9 @@ pub fn with_conn<R>(buf: &[u8; IN_CAP], len: usize, plan: Plan, silent_at_end: b
             OUT_LEN = 0;
             READ_CALLS = 0;
             FD_DROPS = 0;
+            NONBLOCK = false;
+            GAP_USED = false;
+            GAP_AT = if gap { v } else { usize::MAX };
         }
         let stream = Stream::Tcp(unsafe { std::net::TcpStream::from_raw_fd(3) });
         let r = f(stream);
@@ -136,7 +154,7 @@ pub fn with_conn<R>(buf: &[u8; IN_CAP], len: usize, plan: Plan, silent_at_end: b
                     let k = v.min(data.len());
                     c.write_all(&data[..k]).ok();
                     c.flush().ok();
-                    std::thread::sleep(pause * 3);
+                    std::thread::sleep(if gap { std::time::Duration::from_millis(300) } else { pause * 3 });
                     c.write_all(&data[k..]).ok();
                 }
             }
@@ -151,6 +169,10 @@ pub fn with_conn<R>(buf: &[u8; IN_CAP], len: usize, plan: Plan, silent_at_end: b
         });
         let (server, _) = listener.accept().unwrap();
         server.set_read_timeout(Some(std::time::Duration::from_secs(5))).ok();
+        if gap {
+            // let the first segment arrive, the second must still be on its way when the handler polls
+            std::thread::sleep(std::time::Duration::from_millis(80));
+        }
         if k == 0 && !input.is_empty() {
             // let the whole script arrive before the first read
             std::thread::sleep(std::time::Duration::from_millis(60));
